@@ -85,3 +85,108 @@ pub fn pidx(c: Color, k: Piece) -> usize {
 pub fn bit(s: u8) -> u64 {
     1u64 << s
 }
+
+// ---- mailbox view of 16 piece bitboards ----------------------------------------------------------
+
+/// 16 symbolic bitboards, pairwise disjoint, the four unused indexes (0, 7, 8, 15) empty
+pub fn any_boards() -> [u64; 16] {
+    let p: [u64; 16] = kani::any();
+    kani::assume(boards_wf(&p));
+    p
+}
+
+pub fn boards_wf(p: &[u64; 16]) -> bool {
+    let mut acc: u64 = 0;
+    let mut ok = p[0] == 0 && p[7] == 0 && p[8] == 0 && p[15] == 0;
+    let mut i = 0;
+    while i < 16 {
+        ok = ok && (p[i] & acc) == 0;
+        acc |= p[i];
+        i += 1;
+    }
+    ok
+}
+
+pub fn boards_of(b: &crate::Board) -> [u64; 16] {
+    let mut p = [0u64; 16];
+    let mut i = 0;
+    while i < 16 {
+        p[i] = bb(b.piece_occupancy(PieceIndex(i as u8)));
+        i += 1;
+    }
+    p
+}
+
+pub fn board_from(p: &[u64; 16]) -> crate::Board {
+    crate::Board::new(crate::utils::ArrayMap::new(p.map(BitBoard::new)))
+}
+
+/// piece code standing on square t: 0 = empty, otherwise color*8 + kind
+pub fn code_at(p: &[u64; 16], t: u8) -> u8 {
+    let mut code = 0u8;
+    let mut i = 0;
+    while i < 16 {
+        if (p[i] >> t) & 1 == 1 {
+            code = i as u8;
+        }
+        i += 1;
+    }
+    code
+}
+
+pub fn union_all(p: &[u64; 16]) -> u64 {
+    let mut acc = 0;
+    let mut i = 0;
+    while i < 16 {
+        acc |= p[i];
+        i += 1;
+    }
+    acc
+}
+
+pub fn union_color(p: &[u64; 16], c: Color) -> u64 {
+    let base = color_u8(c) as usize * 8;
+    let mut acc = 0;
+    let mut i = 1;
+    while i <= 6 {
+        acc |= p[base + i];
+        i += 1;
+    }
+    acc
+}
+
+pub fn any_rights() -> crate::utils::ArrayMap<Color, crate::CastleRights> {
+    crate::utils::ArrayMap::new([
+        crate::CastleRights { kingside: kani::any(), queenside: kani::any() },
+        crate::CastleRights { kingside: kani::any(), queenside: kani::any() },
+    ])
+}
+
+pub fn any_opt_square() -> Option<Square> {
+    if kani::any() {
+        Some(any_square())
+    } else {
+        None
+    }
+}
+
+pub fn home_rank(c: Color) -> i8 {
+    if c == Color::White {
+        0
+    } else {
+        7
+    }
+}
+
+pub fn last_rank(c: Color) -> i8 {
+    7 - home_rank(c)
+}
+
+/// +1 for White, -1 for Black
+pub fn fwd(c: Color) -> i8 {
+    if c == Color::White {
+        1
+    } else {
+        -1
+    }
+}
